@@ -528,7 +528,7 @@ func mgAliasCase(p *reg.Pkg, seed int64, tier string, id *int, tf *treeFile, sum
 		}
 		sum.sample(map[string]interface{}{"input": in, "op": "DeepCopy", "cells": nOrig, "shared": shared})
 		sum.OracleRuns += mgMutationOracle(rng, maxCells, func() ([]ygot.GoStruct, ygot.GoStruct) {
-			t2 := mgClone(t)
+			t2 := mgFreshClones(t)[0]
 			c2, err, pan := mgSafeCopy(t2)
 			if pan || err != nil {
 				return nil, nil
@@ -594,7 +594,8 @@ func mgAliasCase(p *reg.Pkg, seed int64, tier string, id *int, tf *treeFile, sum
 	}
 	sum.sample(map[string]interface{}{"input": in, "op": "MergeStructs", "cells": nIn, "shared": shared, "overwrite": ow, "emptymaps": em})
 	sum.OracleRuns += mgMutationOracle(rng, maxCells, func() ([]ygot.GoStruct, ygot.GoStruct) {
-		a2, b2 := mgClone(pr.a), mgClone(pr.b)
+		cl := mgFreshClones(pr.a, pr.b)
+		a2, b2 := cl[0], cl[1]
 		r2, err, pan := mgSafeMerge(a2, b2, mgOpts(ow, em)...)
 		if pan || err != nil {
 			return nil, nil
